@@ -31,7 +31,7 @@ class C07(E1Check):
         ops = std_ops(self.alpha, cfg, self.tier)
         extra = [("insert", "P7", None, False, "db"), ("insert", "P8", None, False, "db"),
                  # getters as transitions: whatever an earlier call may have cached must not go stale
-                 ("getter", "get_field_values", "v", "m"), ("getter", "get_tag_keys", "n"), ("getter", "h.len", "m"),
+                 ("getter", "get_field_values", "v", "m"), ("getter", "get_tag_keys", "n"), ("getter", "h.len", "m"), ("getter", "get_timestamps", "m"),
                  # a batch that fails part-way: the stored prefix must show up in every getter
                  ("bad_insert_multiple", ("P0", "P1"), 2, "int", "db"), ("bad_insert_multiple", ("P2", "P8"), 1, "str", "db")]
         have = set(ops)
